@@ -18,7 +18,8 @@
    Non-atomicity: the crate mutates position and market in place and validates afterwards.  Results
    carry, besides p / m (unchanged inputs when ok = FALSE: what the caller sees once the programs'
    revertible market has discarded the attempt), the state the code really leaves behind:
-   pp / pm = position / market at the failing step (= p / m when ok = TRUE).
+   pp / pm = position / market at the failing step (= p / m when ok = TRUE); ncb = number of
+   on_insufficient_funding_fee_payment callbacks fired.
 
    Shapes (identical to the JSON the drivers log):
      price   [min, max]                        px  [i, l, s]   index / long token / short token price
@@ -232,7 +233,7 @@ ZeroRep == [imp |-> 0, impAmt |-> 0, diff |-> 0, xprice |-> 0, dtok |-> 0, dcoll
             pnl |-> 0, unc |-> 0, step |-> "", remove |-> FALSE, out |-> 0, sec |-> 0, clL |-> 0, clS |-> 0,
             hold |-> 0, uo |-> 0, us |-> 0, feeCost |-> 0, fund |-> 0]
 (* pp / pm: the partial state left behind by the failing step (the crate's actions are not atomic) *)
-FailedAt(p, m, pp, pm) == [ok |-> FALSE, p |-> p, m |-> m, rep |-> ZeroRep, pp |-> pp, pm |-> pm]
+FailedAt(p, m, pp, pm) == [ok |-> FALSE, p |-> p, m |-> m, rep |-> ZeroRep, pp |-> pp, pm |-> pm, ncb |-> 0]
 Failed(p, m) == FailedAt(p, m, p, m)
 
 -----------------------------------------------------------------------------
@@ -290,7 +291,7 @@ Increase(p0, m, px, dColl, dSize, acc) ==
      ELSE IF dSize # 0 /\ (~ReserveOk(m2, px, p1.long, m.c.resF) \/ ~ReserveOk(m2, px, p1.long, m.c.oiResF)
                            \/ ~will.ok \/ ~will.suff) THEN FailedAt(p0, m, p2, m2)
      ELSE IF ~Validate(p2, m2, px, TRUE, TRUE) THEN FailedAt(p0, m, p2, m2)
-     ELSE [ok |-> TRUE, p |-> p2, m |-> m2, rep |-> rep, pp |-> p2, pm |-> m2]
+     ELSE [ok |-> TRUE, p |-> p2, m |-> m2, rep |-> rep, pp |-> p2, pm |-> m2, ncb |-> 0]
 
 -----------------------------------------------------------------------------
 (* decrease_position/utils.rs: get_execution_price_for_decrease *)
@@ -304,7 +305,7 @@ ExecPriceDecrease(p, px, d, imp, acc) ==
      ELSE IF acc = -1 \/ (IF p.long THEN price >= acc ELSE price <= acc) THEN Ok(price) ELSE Fail
 
 (* decrease_position/collateral_processor.rs.
-   st = [ok, stop, out, sec, rem, m, hold, uo, us, cleared]; stop = the insolvent-close step at which
+   st = [ok, stop, out, sec, rem, m, hold, uo, us, cleared, cb]; stop = the insolvent-close step at which
    processing ended ("" = none); ok = FALSE: the whole action fails.
    ctx = [op, pp, ip, ol, pl, same, ins]: output (collateral) token price, pnl token price, index price,
    is_output_token_long, is_pnl_token_long, same tokens, insolvent close allowed *)
@@ -345,7 +346,7 @@ AddImpact(st, imp, ctx) ==
 
 PayFunding(st, amount, ctx) ==
   LET r  == DoPay(st, amount * ctx.op.min, ctx)
-      s1 == [Paid(st, r) EXCEPT !.hold = @ + r.ps] IN
+      s1 == [Paid(st, r) EXCEPT !.hold = @ + r.ps, !.cb = r.pc < amount] IN   \* cb: on_insufficient_funding_fee_payment
   IF ~Live(st) \/ amount = 0 THEN st
   ELSE IF r.left # 0 THEN StopAt(s1, "Funding", ctx) ELSE s1
 
@@ -422,7 +423,7 @@ DecreaseWith(p, m, px, dSize0, acc, wd0, fl, Mid(_, _)) ==
       ctx     == [op |-> cpx, pp |-> ppx, ip |-> px.i, ol |-> p.clong, pl |-> p.long, same |-> p.long = p.clong,
                   ins |-> ins]
       s0      == [ok |-> TRUE, stop |-> "", out |-> 0, sec |-> 0, rem |-> p.coll, m |-> m, hold |-> 0,
-                  uo |-> 0, us |-> 0, cleared |-> FALSE]
+                  uo |-> 0, us |-> 0, cleared |-> FALSE, cb |-> FALSE]
       s2      == AddImpact(AddPnl(s0, pv.pnl, ctx), impV, ctx)
       s7      == PayDiff(PayImpact(PayFees(PayPnl(PayFunding(IF Live(s2) THEN Mid(s2, ctx) ELSE s2,
                          fees.fund, ctx), pv.pnl, ctx), fees, ctx), impV, ctx), diff, ctx)
@@ -474,7 +475,7 @@ DecreaseWith(p, m, px, dSize0, acc, wd0, fl, Mid(_, _)) ==
      ELSE IF d3 # 0 /\ oi1 < 0 THEN FailedAt(p, m, p9, mU)
      ELSE IF d3 # 0 /\ oit1 < 0 THEN FailedAt(p, m, p9, mV)
      ELSE IF ~remove /\ ~Validate(p9, m9, px, FALSE, FALSE) THEN FailedAt(p, m, p9, m9)
-     ELSE [ok |-> TRUE, p |-> p9, m |-> m9, rep |-> rep, pp |-> p9, pm |-> m9]
+     ELSE [ok |-> TRUE, p |-> p9, m |-> m9, rep |-> rep, pp |-> p9, pm |-> m9, ncb |-> IF s7.cb THEN 1 ELSE 0]
 
 Decrease(p, m, px, dSize0, acc, wd0, fl) == DecreaseWith(p, m, px, dSize0, acc, wd0, fl, NoMid)
 
